@@ -12,6 +12,7 @@ FUNCS = {
     "FinishCommand": r'bool\s+Builder::FinishCommand\s*\(',
     "Build": r'ExitStatus\s+Builder::Build\s*\(',
     "SetFailureCode": r'void\s+Builder::SetFailureCode\s*\(',
+    "ExtractDeps": r'bool\s+Builder::ExtractDeps\s*\(',
 }
 
 
@@ -99,9 +100,20 @@ static int vf_count(int kind) { return vf_count1(kind); }
 static int vf_first(int kind) { return vf_first1(kind); }
 static int vf_find(int kind, int pid) { vf_q_kind = kind; vf_q_pid = pid; return vf_find0(); }     /* first event of that kind on that path, -1 if none */
 /* ---- contract stubs of the collaborators ---- */
+#include "string_piece.h"
+enum { EV_READ = 20 };
 struct DiskInterface {
+  enum Status { Okay, NotFound, OtherError };
+  int vf_read_status; std::string vf_read_content; long vf_remove_ret;
+  /* contract of ReadFile: Okay => *contents is the file; NotFound / OtherError => *err set */
+  Status ReadFile(const std::string& path, std::string* contents, std::string* err) {
+    vf_ev(EV_READ, vf_path_id(path), vf_read_status, 0);
+    if (vf_read_status == (int)Okay) { *contents = vf_read_content; return Okay; }
+    *err = "read error";
+    return vf_read_status == (int)NotFound ? NotFound : OtherError;
+  }
   bool vf_fail_mkdirs, vf_fail_write; long vf_stat_ret[4]; int vf_stats;
-  DiskInterface() : vf_fail_mkdirs(false), vf_fail_write(false), vf_stats(0) {}
+  DiskInterface() : vf_read_status(0), vf_remove_ret(0), vf_fail_mkdirs(false), vf_fail_write(false), vf_stats(0) {}
   bool MakeDirs(const std::string& path) { vf_ev(EV_MKDIRS, vf_path_id(path), 0, 0); return !(vf_fail_mkdirs && nondet_bool()); }
   bool WriteFile(const std::string& path, const std::string& contents, bool crlf) {
     int id = vf_path_id(path);
@@ -115,7 +127,7 @@ struct DiskInterface {
     if (r == -1) *err = "stat error";
     return r;
   }
-  int RemoveFile(const std::string& path) { vf_ev(EV_REMOVE, vf_path_id(path), 0, 0); return nondet_int(); }
+  int RemoveFile(const std::string& path) { vf_ev(EV_REMOVE, vf_path_id(path), 0, 0); return (int)vf_remove_ret; }
 };
 struct Status {
   void BuildEdgeStarted(const Edge* edge, int64_t start_time_millis) { (void)start_time_millis; vf_ev(EV_STATUS_STARTED, -1, 0, (void*)edge); }
@@ -163,7 +175,8 @@ struct BuildResult {                         /* shadow of build_result.h (std::v
   CommandCompleted& GetCommandCompleted() { return vf_cc; }
 };
 struct vf_JobserverClient { int x; };
-struct BuildConfig { bool dry_run; int failures_allowed; BuildConfig() : dry_run(false), failures_allowed(1) {} };
+struct DepfileParserOptions;
+struct BuildConfig { bool dry_run; int failures_allowed; int depfile_parser_options; BuildConfig() : dry_run(false), failures_allowed(1), depfile_parser_options(0) {} };
 struct CommandRunner {
   bool vf_fail_start; int vf_waits; BuildResult vf_results[4]; size_t vf_capacity[8]; int vf_cap_calls;
   CommandRunner() : vf_fail_start(false), vf_waits(0), vf_cap_calls(0) {}
@@ -192,9 +205,36 @@ static int errno = 0;
 static long vf_now = 0;
 static int64_t GetTimeMillis() { long d = nondet_long(); __CPROVER_assume(d >= 0 && d < 1000000); vf_now += d; return vf_now; }
 static void vf_fatal() { __CPROVER_assert(0, "post: Fatal() is never reached"); __CPROVER_assume(0); }
-#define Fatal(msg) vf_fatal()
+#define Fatal(...) vf_fatal()
+static bool g_keep_depfile = false;
+struct DepfileParserOptions { int x; DepfileParserOptions(int v = 0) : x(v) {} };
+static bool vf_depparse_ok = true; static int vf_depparse_n = 0; char vf_dep_text0[4] = { 97, 0, 0, 0 }; char vf_dep_text1[4] = { 98, 0, 0, 0 };
+struct DepfileParser {                       /* contract stub (the real parser is under contract in C15): true => ins_ are the dependency names, pieces of *content */
+  std::vector<StringPiece> outs_; std::vector<StringPiece> ins_;
+  DepfileParser(DepfileParserOptions o) { (void)o; }
+  bool Parse(std::string* content, std::string* err) {
+    (void)content;
+    if (!vf_depparse_ok) { *err = "depfile parse error"; return false; }
+    if (vf_depparse_n > 0) ins_.push_back(StringPiece(vf_dep_text0, 1));
+    if (vf_depparse_n > 1) ins_.push_back(StringPiece(vf_dep_text1, 1));
+    return true;
+  }
+};
+static bool vf_cl_ok = true;
+struct CLParser {                            /* contract stub (FilterShowIncludes etc. are under contract in C13) */
+  std::set<std::string> includes_;
+  bool Parse(const std::string& output, const std::string& deps_prefix, std::string* filtered_output, std::string* err) {
+    (void)output; (void)deps_prefix;
+    if (!vf_cl_ok) { *err = "cl parse error"; return false; }
+    *filtered_output = "filtered"; includes_.insert(std::string("h1")); return true;
+  }
+};
+void CanonicalizePath(char* path, size_t* len, uint64_t* slash_bits) { (void)path; (void)len; *slash_bits = 0; }     /* contract stub (under contract in C14) */
+static Node vf_state_nodes[3]; static int vf_getnode_calls = 0;
+struct State { Node* GetNode(StringPiece path, uint64_t slash_bits) { (void)path; (void)slash_bits; Node* n = &vf_state_nodes[vf_getnode_calls < 3 ? vf_getnode_calls : 2]; vf_getnode_calls++; return n; } };
 struct Builder {
-  Builder() : config_p_(0), status_(0), start_time_millis_(0), disk_interface_(0), exit_code_(ExitSuccess), vf_cleanups(0) {}
+  State* state_;
+  Builder() : state_(0),  config_p_(0), status_(0), start_time_millis_(0), disk_interface_(0), exit_code_(ExitSuccess), vf_cleanups(0) {}
   BuildConfig* config_p_;                    /* real: const BuildConfig& config_ (reference members are rejected by the front end) */
   Plan plan_;
   vf_UP<vf_JobserverClient> jobserver_;
@@ -248,8 +288,13 @@ def build_fn(harness_file, real, defines=(), mutant=None, unwind=20, str_cap=24,
             h = f.read()
         with open(os.path.join(d, "unit.cc"), "w") as f:
             f.write(unit + h)
+        from engine.routeb import mirrored_string_piece
+        with open(os.path.join(d, "string_piece.h"), "w") as f:
+            f.write(mirrored_string_piece())
+        with open(os.path.join(d, "util.h"), "w") as f:
+            f.write(slicer.read_src("src/util.h"))
         steps = [gotocc_cpp(["unit.cc"], defines=list(defines) + ["VF_STR_CAP=%d" % str_cap, "VF_VEC_CAP=%d" % vec_cap, "VF_MAP_CAP=4", "VF_SET_CAP=4"],
-                            includes=[os.path.join(VERIF, "props", "harness"), os.path.join(VERIF, "stubs", "ninja_plan"), os.path.join(VERIF, "stubs", "cstring"), STD, os.path.join(VERIF, "stubs")])]
+                            includes=[d, os.path.join(VERIF, "props", "harness"), os.path.join(VERIF, "stubs", "ninja_plan"), os.path.join(VERIF, "stubs", "cstring"), STD, os.path.join(VERIF, "stubs")])]
         build.lowerings = counts
 
         def post(dd, av):
